@@ -51,3 +51,74 @@ def declare_c31(E):
                        " and ghost('utime_path') == filename)",
                },
                returns="none", raises={"OSError": "True"}, modifies=[])
+
+
+# G(o) = hashes of the consecutive blocks from offset o to the end of the range (specification function, see specs.py)
+G = "fn('block_hashes_from', 'bytes', hash_id(alg), ghost('fcontent'), %s, block_size, start + length)"
+
+
+def declare_c32(E):
+    """check-file: concatenation of the hash of each consecutive block of the requested range"""
+    from contracts import message
+    message.declare(E)
+    message.light_readers(E)
+    E.contract("paramiko.message.Message.get_list", requires={}, returns="tuple[str]", raises={"UnicodeDecodeError": "True"},
+               ensures=["0 <= self.packet.tell() and self.packet.tell() <= len(self.packet.getvalue())"],
+               modifies=["self.packet.pos"])
+    E.declare_ghost(fcontent="bytes", hashed="bytes", hash_alg="int", resp_count="int", resp_type="int", resp_payload="bytes",
+                    resp_status="int")
+    E.declare_class("paramiko.sftp_server.SFTPServer", {"file_table": "opaque:FileTable", "folder_table": "opaque:FileTable",
+                                                        "server": "opaque:SFTPSI", "next_handle": "int"})
+    E.declare_class("paramiko.sftp_attr.SFTPAttributes", {"st_size": "nat", "_flags": "u32"})
+    E.contract("FileTable.__contains__", argnames=["self", "k"], returns="bool")
+    E.contract("FileTable.__getitem__", argnames=["self", "k"], returns="opaque:Handle")
+    E.contract("Handle.stat", argnames=["self"], returns="union[obj:SFTPAttributes,int]",
+               ensures=["(result.st_size == len(ghost('fcontent'))) if not isint(result) else True"])
+    E.contract("Handle.read", argnames=["self", "offset", "length"], returns="union[bytes,int]",
+               ensures=["(len(result) <= length and len(result) <= len(ghost('fcontent')) - offset"
+                        " and result == ghost('fcontent')[offset:offset + len(result)]"
+                        " and implies(offset < len(ghost('fcontent')) and length > 0, len(result) >= 1)) if isbytes(result) else True"],
+               requires=["offset >= 0"])
+    for h, algid in (("_hashlib.openssl_sha1", 1), ("_hashlib.openssl_md5", 2)):
+        E.contract(h, argnames=[], returns="opaque:Hash", ghost={"hashed": "b''", "hash_alg": str(algid)})
+    E.contract("Hash.update", argnames=["self", "data"], returns="none", ghost={"hashed": "ghost('hashed') + data"})
+    E.contract("Hash.digest", argnames=["self"], returns="bytes",
+               ensures=["result == fn('digest', 'bytes', ghost('hash_alg'), ghost('hashed'))"])
+    E.contract(S + "_send_status", params={"request_number": "int", "code": "int", "desc": "opt[str]"}, returns="none",
+               ghost={"resp_count": "ghost('resp_count') + 1", "resp_type": "101", "resp_status": "code"}, raises={}, modifies=[])
+    E.contract("paramiko.sftp.BaseSFTP._send_packet", params={"t": "int", "packet": "union[obj:Message,bytes]"}, returns="none",
+               ghost={"resp_count": "ghost('resp_count') + 1", "resp_type": "t",
+                      "resp_payload": "packet if isbytes(packet) else packet.packet.getvalue()"}, raises={}, modifies=[])
+    inner = [
+        "0 <= count and count <= blocklen and blocklen >= 1",
+        "chunklen == (blocklen if blocklen <= 65536 else 65536)",
+        "start <= offset - count and offset <= start + length and start + length <= len(ghost('fcontent'))",
+        "blocklen == (block_size if block_size <= start + length - (offset - count) else start + length - (offset - count))",
+        "offset - count == _entry2_offset",        # block start = the offset at which the inner loop was entered
+        "ghost('hashed') == ghost('fcontent')[offset - count:offset]",
+        "sum_out + " + G % "offset - count" + " == " + G % "start",
+        "block_size >= 256 and length >= 0 and start >= 0",
+    ]
+    outer = [
+        "start <= offset and offset <= start + length and (length == 0 or start + length <= len(ghost('fcontent')))",
+        "sum_out + " + G % "offset" + " == " + G % "start",
+        "block_size >= 256 and length >= 0 and start >= 0",
+    ]
+    E.contract(S + "_check_file", params={"request_number": "u32", "msg": "obj:Message"},
+               requires={"msg_pos": "0 <= msg.packet.tell() and msg.packet.tell() <= len(msg.packet.getvalue())"},
+               ensures={
+                   "exactly_one_response": "ghost('resp_count') == old(ghost('resp_count')) + 1",
+                   "reply_is_hashes_of_consecutive_blocks_of_the_range_clamped_at_EOF":
+                       "implies(ghost('resp_type') == 201,"
+                       " local('block_size', 0) >= 256 and (local('length', 0) == 0 or local('start', 0) + local('length', 0) <= len(ghost('fcontent')))"
+                       " and ghost('resp_payload') == pack32(request_number) + pack32(10) + b'check-file'"
+                       " + pack32(len(utf8enc(local('algname', '')))) + utf8enc(local('algname', ''))"
+                       " + fn('block_hashes_from', 'bytes', hash_id(local('alg')), ghost('fcontent'), local('start', 0),"
+                       "      local('block_size', 0), local('start', 0) + local('length', 0)))",
+               },
+               loops={
+                   1: dict(inv=outer, variant="start + length - offset", havoc_ghosts=["hashed"],
+                           vars={"blocklen": "int", "chunklen": "int", "count": "int", "hash_obj": "opaque:Hash", "data": "union[bytes,int]"}),
+                   2: dict(inv=inner, variant="blocklen - count", havoc_ghosts=["hashed"], vars={"data": "union[bytes,int]"}),
+               },
+               returns="none", raises={"UnicodeDecodeError": "True", "struct.error": "True"}, modifies=["msg.packet.pos"])
